@@ -101,8 +101,10 @@ def run(pid, tier='quick', seed=None, replay=None):
         runs = [(payload.get('config') or B.DEFAULT_CFG, payload.get('sanitize'), payload['lines'], payload.get('harness_args', []))]
     else:
         runs = []
-        for (cfg, san, suite_fn, hargs) in prop['runs'](tier):
-            g = cases.G(seed * 1000003 + len(runs))
+        for run in prop['runs'](tier):
+            (cfg, san, suite_fn, hargs) = run[:4]
+            same_seed = len(run) > 4 and run[4] == 'same-seed'
+            g = cases.G(seed * 1000003 + (0 if same_seed else len(runs)))
             suite_fn(g, tier)
             runs.append((cfg, san, g, hargs))
     model_ok = os.path.exists(core.MODEL_EXE)
@@ -112,7 +114,9 @@ def run(pid, tier='quick', seed=None, replay=None):
         for (cfg, san, g, hargs) in runs:
             lines = g if isinstance(g, list) else g.lines
             try:
-                bld = B.Build(cfg=cfg, sanitize=san)
+                cfg = dict(cfg)
+                defines = tuple(cfg.pop('defines', ('M4RI_VERIF',)))
+                bld = B.Build(cfg=cfg, sanitize=san, defines=defines)
             except Exception as e:
                 violations.append(('build', dict(kind='tie-broken', what='library or harness does not build',
                                                  error=str(e)[-3000:], config=cfg)))
@@ -122,7 +126,7 @@ def run(pid, tier='quick', seed=None, replay=None):
                 res = core.correspond(bld, lines, harness_args=hargs, env=env)
             finally:
                 bld.remove()
-            cfg_names.append(B.cfg_name(cfg) + ('+' + san if san else ''))
+            cfg_names.append(B.cfg_name(cfg) + ('+' + san if san else '') + (' ' + ' '.join(hargs) if hargs else '') + (' ' + ' '.join(defines[1:]) if len(defines) > 1 else ''))
             total += res['n']
             total_spec += res['nspec']
             for l in lines:
